@@ -79,6 +79,8 @@ FAMILIES = [
     (r"c14_g1_", "G1", "DirectiveTree passes: every non-conditional token in >= 1 pass, passes strictly increasing without conditional directives, one pass without directives, #passes <= #else-branches + 1", ["core/src/defaults/parser/directive_tree.rs: DirectiveTree::parse, passes, PassIter"]),
     # ---- C15
     (r"c15_a_", "A", "process_cursors (attach) == reference attach: token the cursor belongs to and its position kind/fields", ["core/src/defaults/reconstructor.rs: process_cursors, col_for_token_end_pre_fmt"]),
+    (r"c15_a2_", "A2", "process_cursors on a LIST of two cursors (ascending, descending, equal, one beyond the end): each is attached exactly as the reference attaches it alone", ["core/src/defaults/reconstructor.rs: process_cursors"]),
+    (r"c15_b2_", "B2", "relocate_cursors on two attached cursors == the two single-cursor results, on a symbolic new layout (2-run self-composition)", ["core/src/defaults/reconstructor.rs: relocate_cursors, offset_for_token, ws_len, nonbreaking_ws_len"]),
     (r"c15_b_", "B", "relocate_cursors from the attach state of a symbolic cursor on a symbolic new layout: within output; same offset inside an unchanged token; beyond end => end; blanks stay in their gap", ["core/src/defaults/reconstructor.rs: relocate_cursors, offset_for_token, ws_len, nonbreaking_ws_len, col_for_token_end_post_fmt"]),
     (r"c15_x_", "X", "cursor attach + re-projection: result within output; inside/at end of unchanged token => same offset in that token; beyond end => end", ["core/src/defaults/reconstructor.rs: process_cursors, relocate_cursors, offset_for_token, ws_len, col_for_token_end_post_fmt"]),
     # ---- C04
@@ -101,11 +103,13 @@ c07_i1_toggle_brace_b1_w3 c07_i1_toggle_slashes_b0_w2 c07_i2_region_marking_3tok
 c08_s1_spacing_zero_or_one_3kinds c08_s2_olf_zeroes_spaces_at_line_start c08_s3_apply_solution_counters c08_s4_eof_newline c08_r1_render_soft_w2_w4
 c09_q1_lf_vs_crlf_soft_w2_w4 c09_q3_counters_crlf_eq_lf_nnb
 c10_a1_settings_to_strings c10_a2_new_soft_w0_w3 c10_a2_new_soft_w2_w4 c10_a2_new_hard_w1_w2 c10_a2_new_hard_w5_w0 c10_a3_linewhitespace_len_arith c10_a3_len_equals_emitted_soft_w2_w4 c10_a3_len_equals_emitted_hard_w1_w3 c10_a4_tabs_vs_spaces_tw2_ci2
-c13_d1_dispatch_table_all_bytes c13_w1_blanks_sIs c13_w1_blanks_ssss c13_w1_blanks_sNs c13_v2_scalar_ident_sIs c13_l1_colon_n2 c13_l1_slash_n3 c13_l1_digit_n3 c13_l1_dot_n2 c13_l1_langle_n2 c13_l1_simple_ops_n1 c13_l1_unknown_n1 c13_v1_avx2_eq_ref_len33_off1 c13_k2_keyword_lookup_eq_scan_len3 c13_l1_word_a_n3 c13_z2_consume_to_eof_sIs
+c13_d1_dispatch_table_all_bytes c13_w1_blanks_sIs c13_w1_blanks_ssss c13_w1_blanks_sNs c13_v2_scalar_ident_sIs c13_l1_colon_n2 c13_l1_slash_n3 c13_l1_digit_n3 c13_l1_dot_n2 c13_l1_langle_n2 c13_l1_simple_ops_n1 c13_l1_unknown_n1 c13_v1_avx2_eq_ref_len33_off1 c13_k2_keyword_lookup_eq_scan_len3 c13_l1_word_a_n3 c13_z2_consume_to_eof_sIs c13_l1_percent_n3 c13_l1_rangle_n2 c13_l1_asm_at_n3 c13_l1_asm_digit_n3 c13_l1_asm_digit_n5 c13_l1_dollar_n3 c13_l1_slash_n5 c13_l1_underscore_n3
+c13_l1_asm_word_a_n3 c13_l1_asm_word_e_n3 c13_l1_asm_word_m_n3 c13_l1_asm_dquote_n4 c13_l1_lbrace_n1 c13_l1_lparen_n2 c13_l1_digit_n5 c13_l1_digit_n6 c13_w1_blanks_IIs c13_w1_blanks_IPs c13_w1_blanks_sEs c13_w1_blanks_ses c13_w1_blanks_sI4
+c13_z2_consume_to_eof_ssI c13_z2_consume_to_eof_sIIs c13_z2_consume_to_eof_sNs c13_z2_consume_to_eof_ses c13_k2_keyword_lookup_eq_scan_len2 c13_k2_keyword_lookup_eq_scan_len4 c13_v2_scalar_ident_ssss c13_v2_scalar_ident_sEes c13_v2_scalar_ident_s4s
 c12_m1c_lf_basic c12_m1c_cr_only c12_m1c_short_nonblank_line c12_m1c_ignored_untouched
-c15_a_attach_list1_c3 c15_a_attach_list3_c8 c15_a_attach_list4_c9 c15_a_attach_list2_c4 c15_b_relocate_list1_c1 c15_b_relocate_list1_c3 c15_b_relocate_list1_c5 c15_b_relocate_list2_c4 c15_b_relocate_list3_c8 c15_b_relocate_list4_c9 c15_b_relocate_list1_ignored_c3 c15_b_relocate_list1_cmax c15_b_relocate_rewritten_literal_c4 c15_b_relocate_rewritten_literal_c9 c15_a_attach_list8crlf_c2 c15_b_relocate_list8crlf_c2
+c15_a_attach_list1_c3 c15_a_attach_list3_c8 c15_a_attach_list4_c9 c15_a_attach_list2_c4 c15_b_relocate_list1_c1 c15_b_relocate_list1_c3 c15_b_relocate_list1_c5 c15_b_relocate_list2_c4 c15_b_relocate_list3_c8 c15_b_relocate_list4_c9 c15_b_relocate_list1_ignored_c3 c15_b_relocate_list1_cmax c15_b_relocate_rewritten_literal_c4 c15_b_relocate_rewritten_literal_c9 c15_a_attach_list8crlf_c2 c15_b_relocate_list8crlf_c2 c15_a_attach_list3_c6 c15_a_attach_list4_c14 c15_b_relocate_list3_c6 c15_b_relocate_list4_c14 c15_a2_attach_pair_list1_5_1 c15_a2_attach_pair_list1_9_2 c15_a2_attach_pair_list4_14_1 c15_b2_relocate_pair_list1_5_1 c15_b2_relocate_pair_list3_8_2
 c04_cursor_nocontract_list1_c3 c04_cursor_nocontract_list5_c3 c04_cursor_nocontract_list4_c8 c04_cursor_nocontract_list6_c4 c04_cursor_nocontract_list1_cmax
-c17_u0_bom_sniffing c17_u1_utf16le_1scalar c17_u1_utf16be_1scalar c17_u3_write_utf8_len3
+c17_u0_bom_sniffing c17_u1_utf16le_1scalar c17_u1_utf16be_1scalar c17_u3_write_utf8_len3 c17_u2_decode_bom_then_feff_n1 c17_u2_decode_nobom_scalar3 c17_u2_decode_bom_scalar3
 """.split())
 
 # Harness families that exist in the sources but are NOT registered as obligations: they were
@@ -116,8 +120,9 @@ EXCLUDED = [
     (r"c12_m1a_", "lines_custom on 5 symbolic bytes: 411 s of symbolic execution, then out of memory at 10 GB"),
     (r"c13_l1_quote_n[3-9]", "text literal with 3+ symbolic bytes: 330 s of symbolic execution then out of memory at 10 GB (`bytes().skip(symbolic).take_while(..)` inside the escape/quote loop); n = 1, 2 are registered (n = 2: 640 s)"),
     (r"c13_l1_hash_n", "`#` escapes with 2+ symbolic bytes: out of memory at 10 GB after 15 min"),
-    (r"c13_l1_lbrace_(n[3-9]|directive)", "`{` with 3+ symbolic bytes: directive-expression recursion x loop unwinding: out of memory"),
+    (r"c13_l1_lbrace_(n[2-9]|directive)", "`{` with 2+ symbolic bytes: directive-expression recursion x loop unwinding: out of memory"),
     (r"c13_l1_lparen_n[3-9]", "`(*` with 3+ symbolic bytes: same recursion as `{`: out of memory"),
+    (r"c17_u1_utf16(le|be)_2scalars", "UTF-16 encoders on two arbitrary chars: out of memory at 10 GB (one arbitrary char covers every code-unit case; the loop over chars is std's)"),
     (r"c14_g4_", "one pass of the recursive-descent parser on 1-2 symbolic-kind tokens: > 15 min / 9 GB without a verdict"),
     (r"c14_g1_", "DirectiveTree passes on 2-3 symbolic kinds: recursion x loop unwinding and symbolic-size Vec growth: out of memory at 10 GB"),
 ]
